@@ -84,6 +84,15 @@ def oracle(rep, lay, api, a, spec_reply, impl, replay):
                 en, ed = exp[1:].split('/')
                 if Fraction(int(en), int(ed)) == x:          # already wire-representable: must come back unchanged
                     ok = ok and y == x
+                if ok and k in ('LL', 'LL600') and d > Fraction(1, 2 * rc.SCALE[k]):
+                    # inside the proved bound (half a step + half a unit of the 6th decimal) but beyond the property's
+                    # literal half step: the decoder's six-decimal reporting -- an OPEN known finding, reported as such
+                    n += 1
+                    rep.violation({'entry': ENTRY, 'class': lay.cls, 'component': 'position-half-step',
+                                   'kind': 'beyond-half-step'},
+                                  f'{lay.cls} via {api}: {name} = {cc.show(val)} comes back as {cc.show(g)}, '
+                                  f'{float(d):.3e} away: more than half a wire step ({float(Fraction(1, 2 * rc.SCALE[k])):.3e})',
+                                  replay)
         elif k == 'ROT' and exp[0] == 'f':
             x = rc.real_fraction(val)
             ok = any(cc.spec_value_matches(g, t) for t in alt[name].split('|'))
